@@ -5,7 +5,7 @@ open Tsh Tsh.Tr Tsh.LexTables
 theorem varFold_funcs : ∀ (vs : List Var) (a : Ctx × Bool),
     (vs.foldl (fun (a : Ctx × Bool) v =>
       let e := (assocGet a.1.vars v.name).isSome
-      (if !e && v.pub then { a.1 with vars := assocSet a.1.vars v.name v } else a.1, e)) a).1.funcs = a.1.funcs := by
+      (if !e && v.pub then { a.1 with vars := assocSet a.1.vars v.name v } else a.1, a.2 && e)) a).1.funcs = a.1.funcs := by
   intro vs
   induction vs with
   | nil => intro a; rfl
@@ -32,7 +32,7 @@ theorem regStep_funcsIn (acc : Ctx × List Stmt) (st : Stmt) (h : FuncsIn (PT.de
   cases st with
   | varDef vars vals =>
     simp only [regStep]
-    have hf := varFold_funcs vars (ctx, false)
+    have hf := varFold_funcs vars (ctx, true)
     split
     · exact h.scopes_vars hf
     · exact (h.scopes_vars hf).mono grow
